@@ -1083,3 +1083,47 @@ Proof.
   { rewrite <- (dkeys_filter knonzero). unfold dkeys. rewrite map_map. reflexivity. }
   rewrite E. apply filter_In.
 Qed.
+
+Definition C14_split_spec (M : dict) (obs : list key) : Prop :=
+  NoDup obs /\ forall h, In h obs <-> exists k, In k (dkeys M) /\ In h (halves k).
+
+Theorem check_splitb_iff M obs : check_splitb M obs = true <-> C14_split_spec M obs.
+Proof.
+  unfold check_splitb, C14_split_spec. rewrite keyset_eqb_spec. unfold keyset_eq.
+  split; intros [A B]; (split; [exact A|]); intros h; rewrite B, kdedup_In, in_flat_map; tauto.
+Qed.
+
+Theorem model_split_satisfies ejks name M :
+  In (name, M) ejks -> exists ks, In (name, ks) (xkeys_from_ejks ejks) /\ C14_split_spec M ks.
+Proof.
+  intros H. exists (kdedup (flat_map halves (dkeys M))). split.
+  - unfold xkeys_from_ejks. apply in_map_iff. exists (name, M). split; [reflexivity|exact H].
+  - apply check_splitb_iff. unfold check_splitb. apply keyset_eqb_spec. split; [apply kdedup_NoDup|tauto].
+Qed.
+
+(* ---------- empirical jdd of a network ---------- *)
+Lemma msum_const_list k c (l : list key) :
+  msum (fun x => keqb x k) (map (fun k' => (k', c)) l) == nq (length (filter (keqb k) l)) * c.
+Proof.
+  induction l as [|x l IH]; [unfold nq; cbn; ring|]. cbn [map filter]. rewrite msum_cons, IH.
+  rewrite (keqb_sym x k). destruct (keqb k x); cbn [b2q length]; [rewrite nq_S|]; ring.
+Qed.
+
+Theorem jdd_from_network_spec g : dict_close 0 (jdd_from_network g) (spec_jdd g).
+Proof.
+  unfold jdd_from_network, spec_jdd. split; [apply Qle_refl|]. split; [apply dacc_NoDup; constructor|]. split.
+  - intros k. rewrite dacc_keys, (dkeys_map_fun (fun k => nq (vcount g k) / nq (length (jds g)))), kdedup_In, map_map.
+    cbn [fst dkeys map]. rewrite map_id. cbn [In]. tauto.
+  - intros k. apply Qabs_zero_le; [apply Qle_refl|]. rewrite dacc_get, msum_const_list, dgetq_map_fun.
+    fold (vcount g k). destruct (kmem k (kdedup (jds g))) eqn:E.
+    + unfold Qdiv. ring.
+    + apply kmem_false in E. rewrite kdedup_In in E.
+      assert (Hz : vcount g k = 0%nat).
+      { unfold vcount. destruct (filter (keqb k) (jds g)) as [|x l] eqn:Ef; [reflexivity|].
+        exfalso. apply E. assert (HI : In x (filter (keqb k) (jds g))) by (rewrite Ef; left; reflexivity).
+        apply filter_In in HI. destruct HI as [HI Hk]. apply keqb_eq in Hk. subst. exact HI. }
+      rewrite Hz. unfold nq at 1. cbn [Z.of_nat]. ring.
+Qed.
+
+Theorem check_jddb_iff eps g obs : check_jddb eps g obs = true <-> dict_close eps obs (spec_jdd g).
+Proof. apply dict_closeb_spec. Qed.
